@@ -311,7 +311,18 @@ pub fn build_volume_inner(tape: &mut Tape, max_records: usize, opts: &StreamOpts
                 }
             }
         }
-        let rec = icd::ldm_record(&s.bytes, tape.draw(4) == 3);
+        let negative = tape.draw(4) == 3;
+        let rec = if tape.draw(6) == 5 {
+            // several bzip2 members under one size prefix
+            let k = 1 + tape.draw(2) as usize;
+            let cuts: Vec<usize> = (0..k).map(|_| tape.draw(s.bytes.len() as u64 + 1) as usize).collect();
+            let mut cuts = cuts;
+            cuts.sort_unstable();
+            notes.push(format!("record {}: {} bzip2 members", ri, k + 1));
+            icd::ldm_record_members(&s.bytes, &cuts, negative)
+        } else {
+            icd::ldm_record(&s.bytes, negative)
+        };
         v.records.push((v.bytes.len(), rec.len()));
         v.bytes.extend_from_slice(&rec);
     }
